@@ -8,6 +8,7 @@ import (
 	"os"
 	"os/exec"
 	"runtime"
+	"runtime/debug"
 	"sort"
 	"strings"
 	"sync"
@@ -17,20 +18,20 @@ import (
 // Spec describes one state space + oracle set.  It is plain data: worker processes rebuild the
 // space from it.
 type Spec struct {
-	Name    string   `json:"name"`
-	Prop    string   `json:"prop"`
-	Kind    string   `json:"kind"` // space generator
-	T       uint32   `json:"t"`
-	L       int      `json:"l,omitempty"`       // element bound
-	Classes []string `json:"classes,omitempty"` // value classes
-	Keys    int      `json:"keys,omitempty"`
-	Depth   int      `json:"depth,omitempty"` // 0 = closure
-	Oracles []string `json:"oracles,omitempty"`
-	Seed    string   `json:"seed,omitempty"` // named seed script (trajectory state) replayed before the path
-	SeedN   int      `json:"seedn,omitempty"`
-	Extra   map[string]int `json:"extra,omitempty"`
+	Name    string               `json:"name"`
+	Prop    string               `json:"prop"`
+	Kind    string               `json:"kind"` // space generator
+	T       uint32               `json:"t"`
+	L       int                  `json:"l,omitempty"`       // element bound
+	Classes []string             `json:"classes,omitempty"` // value classes
+	Keys    int                  `json:"keys,omitempty"`
+	Depth   int                  `json:"depth,omitempty"` // 0 = closure
+	Oracles []string             `json:"oracles,omitempty"`
+	Seed    string               `json:"seed,omitempty"` // named seed script (trajectory state) replayed before the path
+	SeedN   int                  `json:"seedn,omitempty"`
+	Extra   map[string]int       `json:"extra,omitempty"`
 	Digests map[string][4]uint64 `json:"digests,omitempty"`
-	Limit   int      `json:"limit,omitempty"`
+	Limit   int                  `json:"limit,omitempty"`
 }
 
 func (s Spec) Has(oracle string) bool {
@@ -72,11 +73,11 @@ type workReq struct {
 }
 
 type succ struct {
-	Op   Op     `json:"op"`
-	Key  string `json:"key"`
-	Viol string `json:"viol,omitempty"`
-	Herr string `json:"herr,omitempty"`
-	Term bool   `json:"term,omitempty"` // terminal: judged, but not explored further
+	Op    Op     `json:"op"`
+	Key   string `json:"key"`
+	Viol  string `json:"viol,omitempty"`
+	Herr  string `json:"herr,omitempty"`
+	Term  bool   `json:"term,omitempty"`  // terminal: judged, but not explored further
 	Shape string `json:"shape,omitempty"` // coarse structural class of the successor state (evidence: non-vacuity)
 	Inner int    `json:"inner,omitempty"` // evaluations made inside the state oracle (e.g. injected fault sets)
 }
@@ -96,12 +97,12 @@ var taskHandlers = map[string]func(arg json.RawMessage) TaskResult{}
 func RegisterTask(name string, h func(arg json.RawMessage) TaskResult) { taskHandlers[name] = h }
 
 type workResp struct {
-	Task    *TaskResult `json:"task,omitempty"`
-	Succs   []succ `json:"succs"`
-	Herr    string `json:"herr,omitempty"`
-	OpsRun  int    `json:"ops"`
-	InitKey string `json:"initkey,omitempty"`
-	InitViol string `json:"initviol,omitempty"`
+	Task     *TaskResult `json:"task,omitempty"`
+	Succs    []succ      `json:"succs"`
+	Herr     string      `json:"herr,omitempty"`
+	OpsRun   int         `json:"ops"`
+	InitKey  string      `json:"initkey,omitempty"`
+	InitViol string      `json:"initviol,omitempty"`
 }
 
 // expandState computes all successors of the state reached by path.
@@ -188,7 +189,12 @@ func WorkerMain() {
 					func() {
 						defer func() {
 							if r := recover(); r != nil {
-								tr.Herr = fmt.Sprintf("task panicked: %v", r)
+								if at := libraryPanicSite(debug.Stack()); at != "" {
+									// the code under test panicked on an input the task built through the public API
+									tr = TaskResult{Evals: 1, Viols: []string{fmt.Sprintf("task %s %s: the library panicked: %v (at %s)", req.Task, string(req.Arg), r, at)}}
+								} else {
+									tr.Herr = fmt.Sprintf("task panicked: %v", r)
+								}
 							}
 						}()
 						tr = h(req.Arg)
@@ -298,8 +304,8 @@ type Stats struct {
 	Deepest     []Op
 	Shapes      map[string]int // states per coarse structural class
 	Wall        float64
-	Inner       int // evaluations made inside state oracles, all transitions
-	InnerNew    int // … on transitions that discovered a new canonical state
+	Inner       int    // evaluations made inside state oracles, all transitions
+	InnerNew    int    // … on transitions that discovered a new canonical state
 	Paths       [][]Op // one history per distinct state (only with Extra["collect"])
 }
 
@@ -592,4 +598,34 @@ func shapeOf(txt string) string {
 		}
 	}
 	return strings.Join(f, "+")
+}
+
+// libraryPanicSite returns the innermost non-runtime frame of a recovered panic if that frame is code of the
+// library under test (and "" if the panic was raised by the harness itself).
+func libraryPanicSite(stack []byte) string {
+	lines := strings.Split(string(stack), "\n")
+	i := 0
+	for ; i < len(lines); i++ {
+		if strings.HasPrefix(lines[i], "panic(") {
+			break
+		}
+	}
+	for i += 2; i+1 < len(lines); i += 2 {
+		fn := lines[i]
+		if strings.HasPrefix(fn, "runtime.") || strings.HasPrefix(fn, "runtime/") || strings.HasPrefix(fn, "internal/") {
+			continue
+		}
+		if strings.HasPrefix(fn, "github.com/onflow/atree.") || strings.HasPrefix(fn, "github.com/onflow/atree/") {
+			if k := strings.LastIndex(fn, "("); k > 0 {
+				fn = fn[:k] // drop the argument words (addresses differ between runs)
+			}
+			loc := strings.TrimSpace(lines[i+1])
+			if k := strings.Index(loc, " +0x"); k > 0 {
+				loc = loc[:k]
+			}
+			return strings.TrimSpace(fn) + " " + loc
+		}
+		return ""
+	}
+	return ""
 }
